@@ -154,6 +154,11 @@ def cases(chk):
         # the answer to a ping reaches the stack while the pinging thread is still inside its write (the reader thread wins the race): it counts
         ["connectReq", "dConnected", "success", "pingTickAnswered", "pingTick", "pong:1", "pingTickAnswered", "pingTickAnswered", "pingTick", "loop"],
         ["connectReq", "dConnected", "success", "pingTickAnswered", "pingTickAnswered", "pingTickAnswered", "appSend"],
+        # answers that are NOT to the keep-alive's latest ping (the application's own ping; a late answer to a ping of the previous connection): the
+        # unanswered keep-alive ping stays unanswered, the next tick closes
+        ["connectReq", "dConnected", "success", "appPing", "pingTick", "pong:app", "pingTick", "loop"],
+        ["connectReq", "dConnected", "success", "pingTick", "dClosed", "loop", "connectReq", "dConnected", "success", "pingTick", "pong:prev", "pingTick", "loop"],
+        ["connectReq", "dConnected", "success", "appPing", "pong:app", "pingTick", "pong:1", "appPing", "pingTick", "pong:app", "pong:1", "pingTick", "pingTick"],
         ["connectReq", "dConnected", "success", "pingTick", "pong:1", "pingTick", "pong:1", "pingTick", "pong:0", "pingTick", "loop"],
         ["connectReq", "dConnected", "failure", "loop", "appSend", "connectReq", "dConnected", "success"],
         ["connectReq", "dConnected", "streamError:ack", "loop", "dConnected", "success", "appSend"],
@@ -196,7 +201,7 @@ def cases(chk):
                 e = r.choice(["success", "success", "failure", r.choice(errs), "appSend", "dClosed", "disconnectReq"])
                 st = "authed" if e == "success" else "down" if e != "appSend" else st
             else:
-                e = r.choice(["pingTick", "pingTick", "pingTick", "pingTickAnswered", "pong:1", "pong:1", "pongRaises", "pong:0", "appSend", r.choice(errs), "dClosed", "disconnectReq", "success", r.choice(["setReconnect:0", "setReconnect:1"])])
+                e = r.choice(["pingTick", "pingTick", "pingTick", "pingTickAnswered", "pong:1", "pong:1", "pongRaises", "pong:0", "appPing", "pong:app", "pong:prev", "appSend", r.choice(errs), "dClosed", "disconnectReq", "success", r.choice(["setReconnect:0", "setReconnect:1"])])
                 st = "down" if (e.startswith("streamError") or e in ("dClosed", "disconnectReq")) else st
             evs.append(e)
             if st == "down" and r.random() < 0.6:
@@ -780,6 +785,7 @@ def run_case(chk, stream, case):
     pings = []              # ids of pings sent and not yet answered (harness view)
     executed = []
     diverged = False
+    app_pings, ka_pings = [], []
     for ei, ev in enumerate(case["events"]):
         # the alphabet's restrictions are decided by the model (same predicate the theorems use)
         arg = ""
@@ -794,8 +800,10 @@ def run_case(chk, stream, case):
             arg = " %d" % target.idx
         prompt_pong = ev == "pingTickAnswered"
         if prompt_pong:
-            ev = "pingTick"          # a ping tick whose answer reaches the stack while the pinging thread is still inside its write
-        if d.ask("life allowed %s%s" % (ev, arg)) != "1":
+            ev = "pingTick"
+        # for the model: an application ping is something the application writes; an answer that is not to the keep-alive's latest ping is a stale pong
+        model_name = {"appPing": "appSend", "pong:app": "pong:0", "pong:prev": "pong:0"}          # a ping tick whose answer reaches the stack while the pinging thread is still inside its write
+        if d.ask("life allowed %s%s" % (model_name.get(ev, ev), arg)) != "1":
             continue
         executed.append(ev + arg)
         chk.hit("ev:" + ev.split(":")[0])
@@ -843,6 +851,24 @@ def run_case(chk, stream, case):
                         raise InfraError("keep-alive thread did not come back")
                     FakeDispatcher.LOG.append("tickLive")        # harness marker: a running keep-alive thread was due (it pings, written or not, or gives up)
                 FakeDispatcher.answer_inside_write = None
+                for x in getattr(iq, "_pingQueue", {}).keys():
+                    if x not in ka_pings:
+                        ka_pings.append(x)
+            elif ev == "appPing":
+                # a ping of the application's own (what a "/ping" command does): it is not the keep-alive's
+                from yowsup.layers.protocol_iq.protocolentities import PingIqProtocolEntity
+                ap = PingIqProtocolEntity()
+                app_pings.append(ap.getId())
+                iface._sendIq(ap, lambda e, o: None, lambda e, o: None)
+            elif ev in ("pong:app", "pong:prev"):
+                # an answer that is NOT to the keep-alive's latest ping: to the application's own ping, or (late) to a keep-alive ping of an
+                # earlier connection — the keep-alive's record of what is unanswered on THIS connection is not touched by it
+                from yowsup.layers.protocol_iq.protocolentities import ResultIqProtocolEntity
+                cur = set(getattr(iq, "_pingQueue", {}).keys())
+                pool = [x for x in (app_pings if ev == "pong:app" else ka_pings) if x not in cur and x in getattr(iq, "iqRegistry", {})]
+                if pool:
+                    chk.hit("ev:" + ev)
+                    net.receive(ResultIqProtocolEntity(_id=pool[-1], _from="s.whatsapp.net").toProtocolTreeNode())
             elif ev.startswith("pong"):
                 from yowsup.layers.protocol_iq.protocolentities import ResultIqProtocolEntity
                 fresh = ev.endswith(":1") or ev == "pongRaises"
@@ -905,7 +931,7 @@ def run_case(chk, stream, case):
         if raised is not None:
             obs.append("raised:" + type(raised).__name__)
         mev = executed[-1]
-        model = d.ask("life step %s" % mev)
+        model = d.ask("life step %s" % model_name.get(mev, mev))
         mobs = [x for x in model.split(",") if x]
         answered_now = ev == "pingTick" and prompt_pong and bool(answered_inside)
         if answered_now and d.ask("life allowed pong:1") == "1":
@@ -987,6 +1013,13 @@ def check_trace(case, executed, trace):
             if closed_now and unanswered == 0:
                 out.append(oracle("C16:ping-timeout-without-unanswered-ping", "history %s: the keep-alive closed the connection at this tick although no ping is unanswered (pings of a connection "
                                   "whose 'disconnected' announcement was delivered do not count: state of an earlier connection leaked)" % executed[:i + 1]))
+                break
+            if "tickLive" in obs and not closed_now and unanswered >= 1 and any(o.startswith("written") for o in obs):
+                # the converse: a keep-alive ping of this connection is still unanswered at the next tick, and the keep-alive writes another ping
+                # instead of asking for the disconnect (an answer to some OTHER ping — the application's own, one of an earlier connection — must
+                # not count for it)
+                out.append(oracle("C16:unanswered-ping-not-timed-out", "history %s: a keep-alive ping of this connection was left unanswered, yet at this tick the keep-alive "
+                                  "writes another ping instead of closing the connection (ping timeout)" % executed[:i + 1]))
                 break
             if "tickLive" in obs and not closed_now:
                 unanswered += 1          # a ping was due and issued — written, or dropped because the connection is not up: either way it is not answered yet
